@@ -88,6 +88,35 @@ def _apalache_quorum(ctx):
     shutil.rmtree(d, ignore_errors=True)
 
 
+class _Later:
+    """Broken machinery in one section must not hide a divergence another section observed on the real code:
+    the first Broken is remembered and raised only if the run ends without any VIOLATION (audit 5d)."""
+    err = None
+
+    def __enter__(self):
+        return self
+
+    def __exit__(self, t, e, tb):
+        if t is not None and issubclass(t, vlib.Broken):
+            if self.err is None:
+                self.err = e
+            vlib.log("deferred until the verdict: %s" % str(e).splitlines()[0])
+            return True
+        return False
+
+
+def _retrying(fn, *a, **kw):
+    """One retry when TLC ended without any verdict (JVM killed from outside, transient I/O): such a failure
+    says nothing about the specification or the code."""
+    try:
+        return fn(*a, **kw)
+    except vlib.Broken as e:
+        if not any(t in str(e) for t in ("TLC failed on", "TLC simulate failed", "produced no behaviours")):
+            raise
+        vlib.log("TLC ended without a verdict, retrying once: %s" % str(e).splitlines()[0])
+        return fn(*a, **kw)
+
+
 def _trace_retry(ctx, *a, **kw):
     """tlc_trace, repeated once when TLC produced no verdict at all (e.g. the JVM was killed from outside)."""
     ok, res = ctx.tlc_trace(*a, **kw)
@@ -130,6 +159,7 @@ def run(ctx):
         return ctx.finish("model_checking", "replay of one recorded behaviour / run")
 
     thorough = not ctx.quick()
+    later = _Later()
     only = os.environ.get("VERIF_C12_ONLY", "")     # development aid, never set by registered commands
 
     # the single-threaded TLC simulations run in the background while the exhaustive checks use the workers
@@ -144,29 +174,31 @@ def run(ctx):
         def sim(job):
             name, i = job
             cfg, period = SIM[name]
-            return name, ctx.tlc_simulate("consensus", "TendermintMBT.tla", cfg, depth=period * per_run[name],
+            return name, _retrying(ctx.tlc_simulate, "consensus", "TendermintMBT.tla", cfg, depth=period * per_run[name],
                                           seed=ctx.seed * 1000 + i, timeout=2400)
         pool = concurrent.futures.ThreadPoolExecutor(max_workers=SIM_PAR)
         sim_futures = [pool.submit(sim, j) for j in jobs]
 
     # ------------------------------------------------------------------ TLC on the specifications
-    if not only or "abs" in only:
+    with later:
+      if not only or "abs" in only:
         for cfg in (["TendermintAbs_c1c2.cfg", "TendermintAbs_f1c1.cfg"] +
                     (["TendermintAbs_c1f1.cfg"] if thorough else [])):
-            r = ctx.tlc_check("consensus", "MCTendermintAbs.tla", cfg, timeout=2400,
+            r = _retrying(ctx.tlc_check, "consensus", "MCTendermintAbs.tla", cfg, timeout=2400,
                               coverage=(thorough and cfg == "TendermintAbs_f1c1.cfg"))
             if "coverage" in r:
                 vlib.require_actions_covered(r)
         # vacuity is checked (thorough) on the small configuration; the large one runs without coverage
-        r = ctx.tlc_check("consensus", "MCTendermint.tla", "Tendermint_proc_quick.cfg", timeout=2400,
+        r = _retrying(ctx.tlc_check, "consensus", "MCTendermint.tla", "Tendermint_proc_quick.cfg", timeout=2400,
                           coverage=thorough)
         if "coverage" in r:
             vlib.require_actions_covered(r)
         if thorough:
-            ctx.tlc_check("consensus", "MCTendermint.tla", "Tendermint_proc_thorough.cfg", timeout=2400)
+            _retrying(ctx.tlc_check, "consensus", "MCTendermint.tla", "Tendermint_proc_thorough.cfg", timeout=2400)
 
     # ------------------------------------------------------------------ replay (spec -> code)
-    if not only or "replay" in only:
+    with later:
+      if not only or "replay" in only:
         by_name = {name: [] for name in NAMES}
         for fut in sim_futures:
             name, bs = fut.result()
@@ -185,7 +217,8 @@ def run(ctx):
         ctx.coverage["behaviours_generated"] = total
 
     # ------------------------------------------------------------------ adversarial runs (code -> spec)
-    if not only or "adv" in only:
+    with later:
+      if not only or "adv" in only:
         payload = {"runs": 3000 if thorough else 600, "steps": 400, "traceRuns": 40 if thorough else 8,
                    "shapes": SHAPES, "maxHeight": 3, "msgMaxHeight": 4}
         res = ctx.run_engine(binary, "TestTmAdversarial", payload, timeout=1500)
@@ -219,8 +252,9 @@ def run(ctx):
                 raise vlib.Broken("trace validation machinery failed for %s:\n%s" % (name, tres["out"][-3000:]))
 
     # ------------------------------------------------------------------ thresholds
-    if not only or "quorum" in only:
-        ctx.tlc_check("consensus", "Quorum.tla", "Quorum_thorough.cfg" if thorough else "Quorum_quick.cfg",
+    with later:
+      if not only or "quorum" in only:
+        _retrying(ctx.tlc_check, "consensus", "Quorum.tla", "Quorum_thorough.cfg" if thorough else "Quorum_quick.cfg",
                       timeout=1200)
         _apalache_quorum(ctx)
         res = ctx.run_engine(binary, "TestTmQuorum", {"maxN": 1000000 if thorough else 100000}, timeout=900)
@@ -236,7 +270,7 @@ def run(ctx):
         "the abstract and the implementation-shaped specification are related by checking the same invariants on "
         "both, not by a mechanised refinement proof",
     ]
-    return ctx.finish(
+    rc = ctx.finish(
         "model_checking",
         "TLC exhaustive: TendermintAbs n=4 f=1 2 values rounds 0..1 (correct / faulty first proposer), Quorum "
         "arithmetic for all N up to the bound, one implementation-shaped validator against every adversarial input "
@@ -247,3 +281,6 @@ def run(ctx):
         "monitored with the spec's invariants and trace-validated by TLC. A behaviour is non-trivial when it "
         "contains broadcasts by at least two validators (all generated ones do; commits/locks/round skips are "
         "counted in replay_act_* / adv_commits)")
+    if later.err is not None and rc == 0:
+        raise later.err
+    return rc
